@@ -77,6 +77,11 @@ func (d *DebugDialer) Dial(ctx context.Context, urlstr string) (conn net.Conn, b
 		// ends, whatever line endings the server uses.
 		p := resBuf.Bytes()
 		n := resLen
+		if n < 0 {
+			// The HTTP response parser refused what the Dialer may well
+			// accept: the response ends with the first empty line.
+			n = headLen(p)
+		}
 		if n > len(p) {
 			n = len(p)
 		}
@@ -152,15 +157,40 @@ func (r *prefetchResponseReader) Read(p []byte) (int, error) {
 			// All that is buffered but not yet consumed by the parser was
 			// sent by the server after the response.
 			*r.length = r.buffer.Len() - br.Buffered()
+			bts := r.buffer.Bytes()
+			r.reader = io.MultiReader(
+				bytes.NewReader(bts),
+				r.source,
+			)
 		} else {
-			// Not a response the parser understands: report all bytes read.
-			*r.length = r.buffer.Len()
+			// Not a response the parser understands, but maybe one the Dialer
+			// accepts: keep recording what the Dialer reads; the end of the
+			// response is looked for when the handshake is over.
+			*r.length = -1
+			bts := append([]byte(nil), r.buffer.Bytes()...)
+			r.reader = io.MultiReader(
+				bytes.NewReader(bts),
+				io.TeeReader(r.source, r.buffer),
+			)
 		}
-		bts := r.buffer.Bytes()
-		r.reader = io.MultiReader(
-			bytes.NewReader(bts),
-			r.source,
-		)
 	}
 	return r.reader.Read(p)
+}
+
+// headLen returns the length of the HTTP message head at the beginning of p:
+// the lines up to and including the first empty one, ended by LF or CRLF.
+// It returns len(p) if there is no empty line.
+func headLen(p []byte) int {
+	for i := 0; i < len(p); {
+		j := bytes.IndexByte(p[i:], '\n')
+		if j < 0 {
+			break
+		}
+		line := p[i : i+j]
+		i += j + 1
+		if len(line) == 0 || (len(line) == 1 && line[0] == '\r') {
+			return i
+		}
+	}
+	return len(p)
 }
